@@ -153,6 +153,8 @@ def _run_replay(ctx):
         ctx.harness(["cmdargs", "rerun", "--in", ctx.path("ev.ndjson"), "--out", ctx.path("trace.ndjson")])
         res = _validate_trace(ctx, ctx.path("trace.ndjson"), "CommandArgsTrace (replayed event)")
         _report_trace_bad(ctx, res, vlib.read_ndjson(ctx.path("trace.ndjson")))
+    elif payload["kind"] == "longrun":
+        return long_silent_run(ctx)
     elif payload["kind"] in ("replay", "trace"):
         import core_common as cc
         return cc.replay_core(ctx, DISPATCH)
@@ -160,6 +162,23 @@ def _run_replay(ctx):
         raise vlib.MachineryError("unknown replay payload kind %r" % payload.get("kind"))
     ctx.cover(replayed=1, states=sum(x["distinct"] for x in ctx.tlc_runs), transitions=sum(x["generated"] for x in ctx.tlc_runs),
               traces_validated_against_impl=1, samples=[payload.get("text") or _s(payload["event"]["text"])])
+
+
+def long_silent_run(ctx):
+    """12,000 consecutive commands in one node, and 3,000 (thorough: 20,000) passes through a loop, without any line in between."""
+    tp = ctx.path("longrun.ndjson")
+    ctx.harness(["cmdargs", "longrun", "--out", tp, "--n", 12000, "--loops", 20000 if ctx.tier == "thorough" else 3000], timeout=900)
+    t = ctx.tlc("LongRunTrace", files=[("trace.ndjson", tp)], workers=1, timeout=300, label="LongRunTrace (tens of thousands of statements in one call)")
+    res = t.printed("RESULT")
+    events = vlib.read_ndjson(tp)
+    if not res or res[-1]["lines"] != len(events):
+        raise vlib.MachineryError("long run trace not consumed:\n" + t.tail())
+    for b in res[-1]["bad"]:
+        e = events[b["line"] - 1]
+        ctx.violation({"kind": "longrun", "event": e},
+                      "%s run of %d commands without a line in between: %s (handler invocations %d, first wrong invocation %d, the call returned: %s)"
+                      % (e["kind"], e["n"], b["what"], e["calls"], e["firstbad"], e["outcome"]), signature="cmdargs:long-run-" + b["what"])
+    ctx.cover(long_silent_runs=len(events), commands_in_long_silent_runs=sum(e["n"] for e in events))
 
 
 def _dispatch_scope(field, exp, got, info):
@@ -280,6 +299,7 @@ def run(ctx):
         binding_selftest=selftest,
         samples=samples,
     )
+    long_silent_run(ctx)
     import core_common as cc
     cc.run_core_check(ctx, DISPATCH)
     ctx.assumptions += [
